@@ -1117,6 +1117,24 @@ example :
       = loadingColumn C03.ctxW C03.isoMolar (some "molar") (some "mmol") none none := by
   decide +kernel
 
+/-- **the saturation pressure enters every mode conversion in the isotherm's OWN pressure unit, whatever the source of the
+number** (backend or a literal of a user-defined adsorbate: the model's context holds one value in Pa, here 90000).
+What a routine reads with `pressure_mode='relative'` from 45 kPa, from 45000 Pa and from 0.45 bar is the same 1/2; the
+quotient by the UNCONVERTED constant (45 / 90000, what an accessor returns that hands the stored Pa value back without
+the unit conversion) is another number — so the model, and by the correspondence check the code, distinguishes the two
+(round 7, seeded change C15-m1: the stored-literal fall-back of `Adsorbate.saturation_pressure`). -/
+theorem saturation_pressure_unit_witness :
+    accessPressure (⟨some 90000, C03.ctxW.env, true⟩ : Ctx ℚ) ⟨"absolute", some "kPa", "molar", some "mmol", "mass", some "g", some "K"⟩
+        45 (some "relative") none = .ok (1 / 2) ∧
+    accessPressure (⟨some 90000, C03.ctxW.env, true⟩ : Ctx ℚ) ⟨"absolute", some "Pa", "molar", some "mmol", "mass", some "g", some "K"⟩
+        45000 (some "relative") none = .ok (1 / 2) ∧
+    accessPressure (⟨some 90000, C03.ctxW.env, true⟩ : Ctx ℚ) ⟨"absolute", some "bar", "molar", some "mmol", "mass", some "g", some "K"⟩
+        (9 / 20) (some "relative") none = .ok (1 / 2) ∧
+    inputPressure (⟨some 90000, C03.ctxW.env, true⟩ : Ctx ℚ) ⟨"absolute", some "kPa", "molar", some "mmol", "mass", some "g", some "K"⟩
+        (1 / 2) (some "relative") none = .ok 45 ∧
+    ((45 : ℚ) / 90000 ≠ 1 / 2) := by
+  decide +kernel
+
 end Witness
 
 /-! ## D. non-vacuity -/
